@@ -329,6 +329,17 @@ pub fn spawn_canceller(mut list: Vec<(u32, may::coroutine::Coroutine, Arc<Atomic
             }
             flag.store(true, Ordering::Relaxed);
             unsafe { co.cancel() };
+            // a quarter of the targets are cancelled a second time a little later (while they
+            // unwind, clean up, wait with their cancel disabled, or are gone): a cancel must be
+            // harmless at any moment, and for a waiter whose cancel is disabled it is a spurious
+            // wake-up that the wait has to absorb
+            if at % 4 == 3 {
+                for _ in 0..(at % 17) {
+                    engine::yield_point();
+                    k += 1;
+                }
+                unsafe { co.cancel() };
+            }
         }
     })
 }
